@@ -13,7 +13,7 @@ m = {
     "hooks": {
         "guard": "sccache_verif",
         "enable": "RUSTFLAGS=\"--cfg sccache_verif\" (harness/.cargo/config.toml for the harness crate; lib/pipeline.py sets it when building /repo's own binaries into .build/target-e2e)",
-        "baseline_off_cmd": "cd /repo && cargo nextest run --workspace --no-fail-fast --tool-config-file pb:/w/lib/nextest.toml --profile pb --test-threads 8 --offline  (fallback: cargo test --workspace --no-fail-fast --offline); tools/baseline_check.sh runs it and compares with BASELINE.json's stable set",
+        "baseline_off_cmd": "cd /repo && cargo nextest run --workspace --no-fail-fast --tool-config-file pb:/w/lib/nextest.toml --profile pb --test-threads 8 --offline",
         "source_commits": hooks,
         "add_only": True,
     },
